@@ -18,7 +18,7 @@ import (
 	"verifharness/internal/sx"
 )
 
-var Methods = []string{"GET", "POST", "PUT", "PATCH", "DELETE", "HEAD", "OPTIONS", "TRACE", "FOO"}
+var Methods = []string{"GET", "POST", "PUT", "PATCH", "DELETE", "HEAD", "OPTIONS", "TRACE", "FOO", "PROPPATCH", "LOCK", "UNLOCK", "FOOBAR"}
 
 type Probe struct {
 	Method string
